@@ -78,7 +78,7 @@ class Translator:
             else "%s__%s__from_%s" % (cls.__name__, name, owner.__name__)
         self.done[key] = coqname
         raw = vars(owner)[name]
-        fn = raw.__func__ if isinstance(raw, (classmethod, staticmethod)) else raw
+        fn = raw.__func__ if isinstance(raw, (classmethod, staticmethod)) else raw.fget if isinstance(raw, property) else raw
         src = textwrap.dedent(inspect.getsource(fn))
         fdef = ast.parse(src).body[0]
         params = [a.arg for a in fdef.args.args]
@@ -110,6 +110,13 @@ class Translator:
         args = " ".join("(v_%s : pyval)" % p for p in params)
         self.defs.append((coqname, "Definition %s %s : res pyval :=\n  %s." % (coqname, args, body)))
         return coqname
+
+    def length_class(self):
+        import pptx.util
+        return pptx.util.Length
+
+    def length_props(self):
+        return {n for n, v in vars(self.length_class()).items() if isinstance(v, property)}
 
     # ------------------------------------------------------------ statements
     def block(self, stmts, ctx):
@@ -212,7 +219,7 @@ class Translator:
                 return v
         if isinstance(e, ast.Attribute) and isinstance(e.value, ast.Name):
             base = e.value.id
-            obj = ctx["cls"] if base == "cls" else self.g.get(base)
+            obj = ctx["cls"] if base == "cls" or (base == "self" and "self" in ctx["vars"]) else self.g.get(base)
             if obj is not None and inspect.isclass(obj) and hasattr(obj, e.attr):
                 v = getattr(obj, e.attr)
                 if isinstance(v, (int, float, str, tuple)) and not callable(v):
@@ -260,9 +267,10 @@ class Translator:
             return "(%sOk (PTuple [%s]))" % (binds, "; ".join(terms))
         if isinstance(e, ast.Subscript):
             return self.subscript(e, ctx)
-        if isinstance(e, ast.Attribute) and e.attr == "centipoints":
+        if isinstance(e, ast.Attribute) and e.attr in self.length_props():
+            # a unit property of pptx.util.Length (value.centipoints, self.pt, ...): its body is translated from util.py
             b1, a1 = self.atom(e.value, ctx)
-            return "(%spy_centipoints_attr %s)" % (b1, a1)
+            return "(%s%s %s)" % (b1, self.method(self.length_class(), e.attr), a1)
         if isinstance(e, ast.Call):
             return self.call(e, ctx)
         raise Unmodelled("expression " + ast.unparse(e))
